@@ -488,4 +488,4 @@ mod tests {
 
 #[cfg(kani)]
 #[path = "/verif/units/kani/overflow.rs"]
-mod verif_kani;
+pub(crate) mod verif_kani;
